@@ -586,3 +586,104 @@ def shrink(ast, pred, budget=400):
                 ast, cur, improved = v, sv, True
                 break
     return cur, ast
+
+
+# ------------------------------------------------- extended rendering -----
+
+class Renderer:
+    """Render with (a) optional attaching whitespace between a command and
+    those of its argument groups where whitespace attaches, and between
+    \\begin / \\end and the name braces; (b) a record of every closer
+    (offset, text, kind) for the single-closer-deletion faults of C07."""
+
+    def __init__(self, sep=None):
+        self.sep = sep            # callable() -> whitespace string, or None
+        self.out = []
+        self.n = 0
+        self.closers = []         # (offset, text, kind)
+
+    def w(self, s):
+        self.out.append(s)
+        self.n += len(s)
+
+    def ws(self):
+        if self.sep:
+            self.w(self.sep())
+
+    def args(self, a, first_round=True):
+        """whitespace attaches before o-groups of the leading o* run and
+        before r-groups of the o* r* run; nowhere after that"""
+        stage = 0                  # 0 = in o*, 1 = in r*, 2 = second round
+        for k, b in a:
+            if k == 'c':
+                self.w('\\' + b)
+                stage = max(stage, 1)
+                continue
+            if first_round:
+                if k == 'o' and stage == 0:
+                    self.ws()
+                elif k == 'r' and stage <= 1:
+                    stage = 1
+                    self.ws()
+                else:
+                    stage = 2
+            op, cl = ('[', ']') if k == 'o' else ('{', '}')
+            self.w(op)
+            self.seq(b)
+            self.closers.append((self.n, cl, 'arg' + k))
+            self.w(cl)
+
+    def seq(self, nodes):
+        for n in nodes:
+            self.node(n)
+
+    def node(self, n):
+        t = n[0]
+        if t in 'TK':
+            self.w(n[1])
+        elif t == 'C':
+            self.w('\\' + n[1])
+            self.args(n[2], first_round=n[1] not in NOHANG and n[1] != 'section')
+        elif t == 'I':
+            self.w('\\item')
+            self.args(n[1])
+            self.seq(n[2])
+        elif t == 'E':
+            self.w('\\begin')
+            self.ws()
+            self.w('{%s}' % n[1])
+            self.args(n[2], first_round=False)
+            self.seq(n[3])
+            self.closers.append((self.n, '\\end{%s}' % n[1], 'end'))
+            self.w('\\end')
+            self.ws()
+            self.w('{%s}' % n[1])
+        elif t == 'G':
+            self.w('{')
+            self.seq(n[1])
+            self.closers.append((self.n, '}', 'group'))
+            self.w('}')
+        elif t == 'M':
+            self.w(n[1])
+            self.seq(n[2])
+            self.w(MATH_CLOSE[n[1]])
+        elif t == 'V':
+            self.w('\\begin{%s}%s\\end{%s}' % (n[1], n[2], n[1]))
+        else:
+            raise ValueError(n)
+
+    def text(self):
+        return ''.join(self.out)
+
+
+def render_spaced(ast, rng):
+    seps = ['', ' ', '  ', '\t', '\n', ' \n', '\n ', ' \n\t']
+    r = Renderer(lambda: rng.choice(seps))
+    r.seq(ast)
+    return r.text()
+
+
+def render_with_closers(ast):
+    r = Renderer()
+    r.seq(ast)
+    return r.text(), r.closers
